@@ -7,6 +7,7 @@ import (
 	"strings"
 
 	"verif/internal/load"
+	"verif/internal/mem"
 	"verif/internal/rep"
 )
 
@@ -142,5 +143,64 @@ func checkC08(c *Ctx, r *rep.Report) {
 		ruleScalarConstants(r, p)
 		ruleAsm(r, p)
 		ruleArithStructure(r, p)
+	}
+}
+
+func init() {
+	register("C16", "other", checkC16)
+	register("C18", "other", checkC18)
+	register("C19", "other", checkC19)
+}
+
+func checkC16(c *Ctx, r *rep.Report) {
+	r.Explanation = "A: both precomputed tables are exactly the documented multiples of B (256 + 32 entries recomputed with independent big-integer arithmetic on every configuration); S: digit-to-table schedule of the fixed-base and double-base loops; finite evaluation of the table selector over its complete digit x position domain; U: unrolled conditional-move stages are uniform; Z: the assembly selector; M1: no scratch table is shared between calls."
+	r.NotDecided = "that the schedule composed with the group law yields [s]B and [s1]P+[s2]B for all scalars (group-law algebra and recoding exactness are numeric)"
+	c.Preload(c.Configs())
+	for _, cfg := range c.Configs() {
+		p, _ := c.mustLoad(r, cfg)
+		if p == nil {
+			continue
+		}
+		ruleFieldConstants(r, p)
+		ruleTables(r, p)
+		ruleAsm(r, p)
+		ruleUnrolledChains(r, p)
+		ruleSelector(r, p)
+		ruleSchedules(r, p)
+		ruleBitOrigin(r, p, "modm")
+		ruleGlobalWrites(r, p, mem.New())
+	}
+}
+
+func checkC18(c *Ctx, r *rep.Report) {
+	r.Explanation = "A: bias constants are 2p/4p with every limb dominating a reduced limb, masks are the limb masks; U: the unrolled carry/borrow chains of Add/Sub/Neg/...Reduce and SwapConditional are uniform stage by stage; R: interval + bit-provenance abstract interpretation of the field package under the magnitudes that reach it (no lost carry, no overflow, no borrow, lossless narrowing); bit-origin: Expand ignores bit 255 and Contract/Expand are inverse bit permutations on reduced inputs — on both limb layouts."
+	r.NotDecided = "value exactness of Mul/Square and the canonicalisation argument of Contract (relational / algebraic; see DESIGN section 7)"
+	c.Preload(c.Configs())
+	for _, cfg := range c.Configs() {
+		p, _ := c.mustLoad(r, cfg)
+		if p == nil {
+			continue
+		}
+		ruleFieldConstants(r, p)
+		ruleUnrolledChains(r, p)
+		ruleBitOrigin(r, p, "curve25519")
+		ruleMagnitudes(r, p, "curve25519")
+	}
+}
+
+func checkC19(c *Ctx, r *rep.Report) {
+	r.Explanation = "A: m = L and mu = floor(2^512/L) on both layouts; U: the borrow chains of the conditional subtraction and of the Barrett tail are uniform stage by stage, stage i subtracts limb i of L and the top stage compensates at the top limb's width; P: Expand skips the reduction only for inputs shorter than 32 bytes; bit-origin: ExpandRaw/Expand/Contract are exact bit (de)serialisations and the radix-16 / binary digit extraction of the recodings covers every bit exactly once; R: accumulators cannot overflow and discarded carries are zero."
+	r.NotDecided = "that the Barrett estimate plus two conditional subtractions yields the canonical residue and that the signed recodings represent their input (value-relational)"
+	c.Preload(c.Configs())
+	for _, cfg := range c.Configs() {
+		p, _ := c.mustLoad(r, cfg)
+		if p == nil {
+			continue
+		}
+		ruleScalarConstants(r, p)
+		ruleUnrolledChains(r, p)
+		ruleExpandLengths(r, p)
+		ruleBitOrigin(r, p, "modm")
+		ruleMagnitudes(r, p, "modm")
 	}
 }
